@@ -132,6 +132,37 @@ func runWorker(bin string, job Job, jobPath string, timeout time.Duration, gomax
 	return
 }
 
+// logTail returns the last n non-empty lines of a worker's output.
+func logTail(path string, n int) string {
+	raw, err := os.ReadFile(path)
+	if err != nil {
+		return ""
+	}
+	var keep []string
+	for _, l := range strings.Split(string(raw), "\n") {
+		if strings.TrimSpace(l) == "" || strings.HasPrefix(l, "Can't Decrypt") {
+			continue
+		}
+		if len(l) > 300 {
+			l = l[:300]
+		}
+		keep = append(keep, "    | "+l)
+	}
+	if len(keep) > n {
+		// keep the first lines of the failure (panic message) rather than the end of a long stack
+		for i, l := range keep {
+			if strings.Contains(l, "panic:") || strings.Contains(l, "fatal error:") {
+				keep = keep[i:]
+				break
+			}
+		}
+		if len(keep) > n {
+			keep = keep[:n]
+		}
+	}
+	return strings.Join(keep, "\n")
+}
+
 func loadKnown() KnownFile {
 	var k KnownFile
 	raw, err := os.ReadFile(filepath.Join(verifDir, "known_findings.json"))
@@ -321,11 +352,37 @@ func doCheck(bin, prop string, spec PropSpec, tier string, seedBase uint64, budg
 			if killed {
 				harness = append(harness, fmt.Sprintf("worker %d hit the watchdog", w))
 			} else if !ended {
-				s := "?"
+				sd := "?"
 				if started != nil {
-					s = fmt.Sprint(*started)
+					sd = fmt.Sprint(*started)
 				}
-				a.deaths = append(a.deaths, fmt.Sprintf("worker %d died (%v) while running seed %s; see %s.log", w, exitErr, s, job.Out))
+				tail := logTail(job.Out+".log", 25)
+				// A process death in the middle of a batch may come from something an earlier run of the
+				// same process left behind (a goroutine of the code under test that outlived its run).
+				// The interrupted seed is run again alone in a fresh process: if it completes, its result
+				// counts and the death is reported as a note; if it dies again it is a harness failure.
+				reproduced := true
+				if started != nil && *started >= seedBase*1000003 {
+					idx := int(*started - seedBase*1000003)
+					j2 := job
+					j2.Start, j2.Stride, j2.MaxRuns, j2.BudgetS = idx, 1, 1, 0
+					j2.Out = filepath.Join(outDir, fmt.Sprintf("w%02d.retry.jsonl", w))
+					mu.Unlock()
+					l2, _, k2 := runWorker(bin, j2, filepath.Join(outDir, fmt.Sprintf("w%02d.retry.job.json", w)), 10*time.Minute, 1)
+					mu.Lock()
+					for _, l := range l2 {
+						if l.Kind == "run" && l.Result != nil && !k2 {
+							a.add(l)
+							reproduced = false
+						}
+					}
+				}
+				if reproduced {
+					a.deaths = append(a.deaths, fmt.Sprintf("worker %d died (%v) while running seed %s, and again when that seed ran alone; see %s.log\n%s", w, exitErr, sd, job.Out, tail))
+				} else {
+					a.probes["harness_worker_death_not_reproducible"]++
+					fmt.Fprintf(os.Stderr, "NOTE: worker %d died (%v) while running seed %s after %d runs in the same process; the seed completes when run alone in a fresh process (result counted). Last output of the dead worker:\n%s\n", w, exitErr, sd, len(lines), tail)
+				}
 			}
 		}(w)
 	}
